@@ -16,6 +16,9 @@ Record c12_case := C12 {
 Definition script_fn (l : list outcome) : nat -> outcome := nth_last ([], 1%N) l.
 
 (** wall-clock slack: 0.2 ms on lower bounds, 200 ms / 1 s on "should have given up" *)
+(** retries tolerated after cancel() had returned (each one a select race lost to a ready timer,
+    probability <= 1/2: a false alarm has probability <= 2^-40 per case) *)
+Definition race_bound : nat := 40.
 Definition impl_slack : slack := Slack 200000 200000000 1000000000 1.
 
 (** the delay reported after each retry attempt (k >= 1), None when not observable *)
@@ -74,7 +77,8 @@ Definition c12_mismatch (k : c12_case) : bool :=
         && outcome_eqb (r_out r) (o_out (k_obs k))).
 
 Definition c12_violates (k : c12_case) : bool :=
-  negb (retry_monitor (k_cfg k) impl_slack (script_fn (k_script k)) (k_obs k)).
+  negb (retry_monitor (k_cfg k) impl_slack (script_fn (k_script k)) (k_obs k)
+        && late_ok race_bound (k_obs k)).
 
 Definition c12_mismatches (cs : list c12_case) : list nat := positions (map c12_mismatch cs).
 Definition c12_violations (cs : list c12_case) : list nat := positions (map c12_violates cs).
